@@ -256,6 +256,118 @@ static unsigned char *special_mutant(const unsigned char *src, long n, int which
 	return NULL;
 }
 
+/* ---- name-width sweep ---------------------------------------------------
+ * Format-independent: the names the INTACT file loads with (title, first two and last instrument name, first
+ * sample name) are located in the file bytes; every occurrence found is then a name field of that format.  Each
+ * field is filled completely with non-NUL characters, at and beyond the usual widths:
+ *   fixed-width variants  W bytes from the start of the field, W in nf_width[]
+ *   length-prefixed       when the byte before the field looks like a length byte (>= the visible length, <= 64):
+ *                         the string is replaced by P characters and the prefix set to P, P in nf_plen[]
+ * mutseed = NF_BASE + name * 16 + variant; a deterministic function of the file bytes. */
+#define NF_BASE 0x4E46000000000000ULL
+#define NF_NAMES 5
+static const int nf_width[] = { 20, 22, 26, 28, 30, 32, 40, 64 };
+static const int nf_plen[] = { 31, 32, 33, 40 };
+#define NF_NW ((int)(sizeof(nf_width) / sizeof(nf_width[0])))
+#define NF_NP ((int)(sizeof(nf_plen) / sizeof(nf_plen[0])))
+#define NF_VARIANTS (NF_NW + NF_NP)
+
+static struct { const unsigned char *src; long n; int cnt; long off[NF_NAMES]; int len[NF_NAMES]; } nf_cache;
+
+static void nf_add(const unsigned char *src, long n, const char *name)
+{
+	size_t l = strlen(name);
+	long o;
+	int k;
+	if (l < 3 || l > 64 || nf_cache.cnt >= NF_NAMES)
+		return;
+	for (o = 0; o + (long)l <= n; o++) {
+		if (src[o] == (unsigned char)name[0] && !memcmp(src + o, name, l))
+			break;
+	}
+	if (o + (long)l > n)
+		return;
+	for (k = 0; k < nf_cache.cnt; k++)
+		if (nf_cache.off[k] == o) return;
+	nf_cache.off[nf_cache.cnt] = o;
+	nf_cache.len[nf_cache.cnt] = (int)l;
+	nf_cache.cnt++;
+}
+
+/* the name fields of the file (found by loading it once, from memory) */
+static int nf_fields(const unsigned char *src, long n)
+{
+	xmp_context opaque;
+	struct xmp_module *mod;
+	if (nf_cache.src == src && nf_cache.n == n)
+		return nf_cache.cnt;
+	nf_cache.src = src; nf_cache.n = n; nf_cache.cnt = 0;
+	opaque = xmp_create_context();
+	if (xmp_load_module_from_memory(opaque, src, n) == 0) {
+		mod = &((struct context_data *)opaque)->m.mod;
+		nf_add(src, n, mod->name);
+		if (mod->ins > 0 && mod->xxi) {
+			char tmp[33];
+			int i, got = 0;
+			for (i = 0; i < mod->ins && got < 2; i++) {
+				memcpy(tmp, mod->xxi[i].name, 32); tmp[32] = 0;
+				if (strlen(tmp) >= 3) { nf_add(src, n, tmp); got++; }
+			}
+			memcpy(tmp, mod->xxi[mod->ins - 1].name, 32); tmp[32] = 0;
+			nf_add(src, n, tmp);
+		}
+		if (mod->smp > 0 && mod->xxs) {
+			char tmp[33];
+			int i;
+			for (i = 0; i < mod->smp; i++) {
+				memcpy(tmp, mod->xxs[i].name, 32); tmp[32] = 0;
+				if (strlen(tmp) >= 3) { nf_add(src, n, tmp); break; }
+			}
+		}
+		xmp_release_module(opaque);
+	}
+	xmp_free_context(opaque);
+	return nf_cache.cnt;
+}
+
+static unsigned char *namefill_mutant(const unsigned char *src, long n, uint64_t idx, long *outn, char *kind)
+{
+	int name = (int)(idx / 16), var = (int)(idx % 16), k;
+	long off;
+	unsigned char *b;
+	if (name >= nf_fields(src, n) || var >= NF_VARIANTS)
+		return NULL;
+	off = nf_cache.off[name];
+	if (var < NF_NW) {
+		int w = nf_width[var];
+		if (off + w > n)
+			return NULL;
+		b = (unsigned char *)malloc(n);
+		memcpy(b, src, n);
+		for (k = 0; k < w; k++)
+			b[off + k] = (unsigned char)('A' + k % 26);
+		sprintf(kind, "namefill-w%d", w);
+		*outn = n;
+		return b;
+	} else {
+		int p = nf_plen[var - NF_NW], old;
+		if (off < 1)
+			return NULL;
+		old = src[off - 1];
+		if (old < nf_cache.len[name] || old > 64 || off + old > n)
+			return NULL;
+		b = (unsigned char *)malloc(n + 64);
+		memcpy(b, src, off);
+		b[off - 1] = (unsigned char)p;
+		for (k = 0; k < p; k++)
+			b[off + k] = (unsigned char)('A' + k % 26);
+		memcpy(b + off + p, src + off + old, n - off - old);
+		sprintf(kind, "namefill-p%d", p);
+		*outn = n - old + p;
+		return b;
+	}
+}
+
 static unsigned char *mutate(const unsigned char *src, long n, const unsigned char *oth, long on,
 			     uint64_t mutseed, long *outn, char *kind)
 {
@@ -268,6 +380,16 @@ static unsigned char *mutate(const unsigned char *src, long n, const unsigned ch
 		memcpy(b, src, n);
 		*outn = n;
 		strcpy(kind, "intact");
+		return b;
+	}
+	if (mutseed >= NF_BASE && mutseed < NF_BASE + 16 * NF_NAMES) {
+		b = namefill_mutant(src, n, mutseed - NF_BASE, outn, kind);
+		if (b == NULL) {
+			b = (unsigned char *)malloc(n > 0 ? n : 1);
+			memcpy(b, src, n);
+			*outn = n;
+			strcpy(kind, "intact");
+		}
 		return b;
 	}
 	if (mutseed <= NSPECIAL) {
@@ -754,6 +876,19 @@ int main(int argc, char **argv)
 				run_variant(file, b, m, (uint64_t)k, 0, 0, NULL, 0);
 				free(b);
 			}
+			/* name-width sweep over the name fields of a file that loads */
+			if (rc_mem == 0) {
+				for (k = 0; k < 16 * NF_NAMES; k++) {
+					long m;
+					char kind[32];
+					unsigned char *b = namefill_mutant(src, n, (uint64_t)k, &m, kind);
+					if (b == NULL)
+						continue;
+					printf("mutant kind=%s\n", kind);
+					run_variant(file, b, m, NF_BASE + (uint64_t)k, 0, 0, NULL, 0);
+					free(b);
+				}
+			}
 			for (k = 0; k < nmut; k++) {
 				uint64_t ms = fnv1a(FNV_INIT ^ seed, file, strlen(file)) * 2654435761ULL + (uint64_t)k * 977 + 1;
 				long m;
@@ -761,6 +896,7 @@ int main(int argc, char **argv)
 				unsigned char *b;
 				int rc;
 				if (ms <= NSPECIAL) ms += 1000;
+				if (ms >= NF_BASE && ms < NF_BASE + 4096) ms += 4096;
 				b = mutate(src, n, oth, on, ms, &m, kind);
 				printf("mutant kind=%s\n", kind);
 				rc = run_variant(file, b, m, ms, (int)vrng_below(2), archive ? 1 : (k % 3 == 2 ? 2 + (int)vrng_below(2) : 0),
